@@ -171,8 +171,20 @@ def build(cfg, values=None):
                     obs.append(('geometry-after-redefinition-vs-fresh[%s]' % nm, Sym.lift(getattr(cc, nm)), Sym.lift(getattr(fresh, nm))))
             elif variant == 'split':
                 cc = cone(model)
+                if cfg.get('pd'):
+                    cc.pdC, cc.pdT, cc.pdLA = cfg['pd']
+                    cc.uTM, cc.thetaTdeg = V('uTM'), V('thetaTdeg')
                 cc._calc_linear_matrices(combined_load_case=None, silent=True)
                 tot = cc.kG0.todict()
+                # the matrix handed to the analyses: k0 on the amplitudes that are not prescribed, in their original order
+                ex = sorted(cc.excluded_dofs)
+                keep = [i for i in range(cc.get_size()) if i not in ex]
+                Kfull, Kuu = cc.k0.todict(), cc.k0uu.todict()
+                obs.append(('k0uu-size', Sym.lift(cc.k0uu.shape[0]), Sym.lift(len(keep))))
+                for a, i in enumerate(keep):
+                    for b, j in enumerate(keep):
+                        if (i, j) in Kfull or (a, b) in Kuu:
+                            obs.append(('k0uu-is-k0-on-the-free-amplitudes[%d,%d]' % (a, b), Kuu.get((a, b), 0), Kfull.get((i, j), 0)))
                 cc2 = cone(model)
                 cc2._calc_linear_matrices(combined_load_case=1, silent=True)
                 parts = {}
@@ -468,6 +480,9 @@ def configs(tier, seed):
     for model in (['clpt_donnell_bc1', 'fsdt_donnell_bc1', 'clpt_sanders_bc2'] if quick else names):
         out.append({'variant': 'split', 'model': model, 'mn': (2, 2, 1), 's': 1, 'cone': True, 'group': '(ii) kG0 split/homogeneous:%s' % model, 'm': 2, 'n': 1, 'timeout_ms': 180000})
         out.append({'variant': 'split', 'model': model, 'mn': (2, 2, 1), 's': 1, 'cone': False, 'group': '(ii) kG0 split/homogeneous (cylinder):%s' % model, 'm': 2, 'n': 1, 'timeout_ms': 180000})
+    for pd in ((True, False, True), (True, True, True), (False, False, True)):
+        out.append({'variant': 'split', 'model': 'clpt_donnell_bc1', 'mn': (2, 2, 1), 's': 1, 'cone': True, 'pd': pd,
+                    'group': '(ii) kG0 split/homogeneous, k0 on the free amplitudes:clpt_donnell_bc1:pdC=%d,pdT=%d' % pd[:2], 'm': 2, 'n': 1, 'timeout_ms': 180000})
     for model in ISO:
         out.append({'variant': 'iso', 'model': model, 'mn': (3, 1, 1), 's': 1, 'cone': True, 'group': '(iii) iso=general:%s:m1=3' % model, 'm': 3, 'n': 1, 'timeout_ms': 180000})
         out.append({'variant': 'iso', 'model': model, 'mn': (3, 1, 1), 's': 1, 'cone': False, 'group': '(iii) iso=general (cylinder):%s:m1=3' % model, 'm': 3, 'n': 1, 'timeout_ms': 180000})
